@@ -633,3 +633,98 @@ def run_observed(case):
         probe.clear_controller()
     obs.observe("after-call")
     return out, obs
+
+
+# ---------------------------------------------------------------------- real short writes (RLIMIT_FSIZE)
+
+def run_fsize_limit(case, limit):
+    """The call runs in a forked child under RLIMIT_FSIZE=limit (SIGXFSZ ignored), so the KERNEL cuts writes short
+    / fails them with EFBIG - a disk-full style failure that no Python-level injection can imitate (a raw,
+    unbuffered writer silently accepts a short count). Returns (Outcome-like dict, problems)."""
+    import json as _json
+    import resource
+    shutil.rmtree(case.rundir, ignore_errors=True)
+    shutil.copytree(case.template, case.rundir)
+    r, w = os.pipe()
+    sys.stdout.flush()
+    sys.stderr.flush()
+    pid = os.fork()
+    if pid == 0:
+        os.close(r)
+        try:
+            signal.signal(signal.SIGXFSZ, signal.SIG_IGN)
+            store = case.open(case.rundir)
+            env = case.world("run", store)
+            env._paths = dict(case._paths)
+            _soft, hard = resource.getrlimit(resource.RLIMIT_FSIZE)
+            resource.setrlimit(resource.RLIMIT_FSIZE, (limit, hard))      # soft limit only, so it can be lifted again
+            try:
+                out, _e = env.execute(case.call)
+            finally:
+                resource.setrlimit(resource.RLIMIT_FSIZE, (hard, hard))
+            os.write(w, _json.dumps({"ok": out.ok, "exc": out.exc_name, "msg": out.msg}).encode())
+        except BaseException as err:  # noqa
+            try:
+                os.write(w, _json.dumps({"ok": False, "exc": "HARNESS:" + type(err).__name__, "msg": str(err)[:200]}).encode())
+            except BaseException:  # noqa
+                pass
+        os._exit(0)
+    os.close(w)
+    data = b""
+    deadline = time.monotonic() + 60
+    while True:
+        try:
+            chunk = os.read(r, 65536)
+        except OSError:
+            break
+        if not chunk:
+            break
+        data += chunk
+        if time.monotonic() > deadline:
+            break
+    os.close(r)
+    os.waitpid(pid, 0)
+    try:
+        res = _json.loads(data.decode())
+    except ValueError:
+        raise Inconclusive(f"child under RLIMIT_FSIZE={limit} reported nothing")
+    if str(res.get("exc", "")).startswith("HARNESS:"):
+        raise Inconclusive(f"harness error in the child under RLIMIT_FSIZE={limit}: {res}")
+    probs = []
+    a = case.abstract(case.rundir)
+    subject = case.subject_pid()
+    kind = case.call["op"]
+    after_view = case.bystander_view(case.rundir, subject)
+    if res["ok"]:
+        if case.api_view(a) != case.api_view(case.ref_abs):
+            probs.append(("success-reported-without-whole-effect", {"after": a.describe(), "fault_free": case.ref_abs.describe()}))
+    else:
+        if kind in ("store", "tag") and case.ref_out.ok:
+            if subject in a.pid_refs:
+                probs.append(("raised-but-pid-bound", {"error": res["exc"], "binding": a.pid_refs[subject]}))
+            fresh = case.open(case.rundir)
+            env2 = case.world("run", fresh)
+            env2._paths = dict(case._paths)
+            r2, _e = env2.execute(case.call)
+            if not r2.ok:
+                probs.append(("retry-refused", {"first_error": res["exc"], "retry": r2.brief(), "msg": r2.msg}))
+            elif kind == "store":
+                g = call(fresh.retrieve_object, subject)
+                if not g.ok or read_all_and_close(g.value) != case.contents[case.call["content"]]:
+                    probs.append(("retry-not-retrievable", {"retrieve": g.brief()}))
+        if kind == "smeta":
+            fresh = case.open(case.rundir)
+            f = case.call.get("fmt")
+            m = call(fresh.retrieve_metadata, subject, f) if f else call(fresh.retrieve_metadata, subject)
+            want = case.start_abs.metadata.get((subject, f if f else DEFAULT_NS))
+            got = hashlib.sha256(read_all_and_close(m.value)).hexdigest() if m.ok else None
+            if got != want:
+                probs.append(("previous-metadata-version-lost", {"want": want, "got": got if m.ok else m.brief()}))
+    diff = bystander_diff(case.bystander_before, after_view)
+    if diff:
+        probs.append(("bystander-changed", diff))
+    # whatever sits at a permanent object / metadata address must be complete (C09 clause, checked here as well)
+    for cid, (size, _sha, dg) in a.objects.items():
+        if dg != cid:
+            probs.append(("object-content-differs-from-name", {"cid": cid, "size": size}))
+    return res, probs
